@@ -70,7 +70,7 @@ class Sink:
         env = self.env
         self.entries.append({
             "kind": kind,
-            "id": self.ids.get(id(event), 0) if kind in MARKET else 0,
+            "id": self.ids.get(id(event), getattr(event, "vid", 0)) if kind in MARKET else 0,
             "t": event.time,
             "clk": env._now if env is not None else None,
             "gnow": AbstractContract.now,
@@ -176,6 +176,13 @@ class World:
             else:
                 tr.add_timesteps([t for t in ts if t > cutoff])
                 tr.add_events(list(self.events))
+        elif self._custom_loadable(cfg):
+            # custom events loaded from a DataFrame (Transmitter.add_custom_events builds the event objects itself); legal only
+            # when none of them shares a stamp with another kind of event, so that insertion order among ties is unchanged
+            import pandas as pd
+            xs = [e for e in cfg["events"] if e["kind"] == "x"]
+            tr.add_events([ev for ev, e in zip(self.events, cfg["events"]) if e["kind"] != "x"])
+            tr.add_custom_events(pd.DataFrame({"vid": [e["id"] for e in xs]}, index=pd.DatetimeIndex([T(e["t"], tick) for e in xs])), EventX)
         elif len(self.events) >= 3 and len(self.events) % 3 != 0:
             # loaded in two batches that overlap in time (e.g. bars first, ticks later): the stream is the union of its batches
             h = len(self.events) // 2
@@ -213,6 +220,14 @@ class World:
         self.sinkx.env = self.env
         self.sinkx2.env = self.env
         self.draw = None
+
+    @staticmethod
+    def _custom_loadable(cfg):
+        xs = [e for e in cfg["events"] if e["kind"] == "x"]
+        if not xs or len(cfg["events"]) % 2 == 0 or cfg.get("reuse_transmitter"):
+            return False
+        other = {e["t"] for e in cfg["events"] if e["kind"] != "x"}
+        return not any(e["t"] in other for e in xs)
 
     # ------------------------------------------------------------------ calls
     def _wrap_broker(self):
@@ -261,6 +276,38 @@ class World:
         if out == "ok":
             self._wrap_broker()
         return out, val
+
+    def backtest(self, start, rl, acts):
+        """the same episode through TradingEnv.backtest with a policy that replays the given actions"""
+        from tradingenv.policy import AbstractPolicy
+        me = self
+        seq = [self.action(a) for a in acts]
+
+        class Replay(AbstractPolicy):
+            def __init__(self):
+                self.k = 0
+
+            def act(self, state=None):
+                a = seq[self.k] if self.k < len(seq) else seq[-1]
+                self.k += 1
+                return a
+
+            def __repr__(self):
+                return "verif-replay"
+        orig = np.random.choice
+
+        def choice(a, size=None, replace=True, p=None):
+            n = len(a) if hasattr(a, "__len__") else int(a)
+            if n <= 0:
+                return orig(a, size, replace, p)
+            return list(a)[start - 1] if hasattr(a, "__len__") else start - 1
+        np.random.choice = choice
+        try:
+            pol = Replay()
+            out, val = impl.classify(lambda: me.env.backtest(fold="f", policy=pol, episode_length=(rl or None)))
+        finally:
+            np.random.choice = orig
+        return out, val, pol.k
 
     def expected_alloc(self, j):
         """allocation denoted by the j-th in-space action (0 = null action)"""
